@@ -635,18 +635,33 @@ func runDisk(ch *simrt.Chooser, opt Options) RunResult {
 			// reader path contains); every reader must get what ParseObject gives for its own file's bytes
 			k := 2 + s.Draw("readers", 4)
 			type job struct {
+				how  int // 0 ParseFile, 1 ParseObject, 2 ParseList
 				path string
 				text string // (parsed for comparison only after the concurrent phase: the readers find the parser as cold as the process is)
 				want outcome
 				got  outcome
 			}
+			hows := []string{"ParseFile", "ParseObject", "ParseList"}
 			jobs := make([]*job, k)
 			for i := range jobs {
-				_, jd := genDocument(s, true)
+				how := 0
+				if s.Draw("reader-kind", 3) == 0 {
+					how = 1 + s.Draw("reader-string-kind", 2)
+				}
+				_, jd := genDocument(s, how != 2)
 				if len(jd) > 20000 {
 					jd = "{\"k\":" + strconv.Itoa(i) + "}"
+					if how == 2 {
+						jd = "[" + strconv.Itoa(i) + "]"
+					}
 				}
-				jobs[i] = &job{path: d.store([]byte(jd)), text: jd}
+				if s.Draw("reader-damaged", 6) == 0 && len(jd) > 2 {
+					jd = jd[:1+s.Draw("reader-cut", len(jd)-1)] // a reader whose input is rejected, next to readers whose input is accepted
+				}
+				jobs[i] = &job{how: how, text: jd}
+				if how == 0 {
+					jobs[i].path = d.store([]byte(jd))
+				}
 			}
 			var wg simrt.WaitGroup
 			wg.Add(k)
@@ -655,21 +670,36 @@ func runDisk(ch *simrt.Chooser, opt Options) RunResult {
 				s.Client(func() {
 					defer wg.Done()
 					simrt.Yield()
-					j.got = parseFil(j.path)
+					switch j.how {
+					case 0:
+						j.got = parseFil(j.path)
+					case 1:
+						j.got = parseObj(j.text)
+					default:
+						j.got = parseLst(j.text)
+					}
 				})
 			}
 			wg.Wait()
 			for _, j := range jobs {
-				j.want = parseObj(j.text)
+				if j.how == 2 {
+					j.want = parseLst(j.text)
+				} else {
+					j.want = parseObj(j.text)
+				}
 			}
 			fired("concurrent-readers")
-			res.Faults = append(res.Faults, fmt.Sprintf("%d concurrent ParseFile calls on different files", k))
+			res.Faults = append(res.Faults, fmt.Sprintf("%d concurrent parser calls on different inputs", k))
 			for i, j := range jobs {
 				res.Evals++
+				oracle := "not-repeatable"
+				if j.how == 0 {
+					oracle = "parsefile-differs"
+				}
 				if !j.got.exclusive() {
-					d.fail("not-exclusive", fmt.Sprintf("concurrent reader %d: ParseFile outcome %s (panic %q)", i, j.got.class(), j.got.pmsg))
+					d.fail("not-exclusive", fmt.Sprintf("concurrent reader %d: %s outcome %s (panic %q)", i, hows[j.how], j.got.class(), j.got.pmsg))
 				} else if j.got.class() != j.want.class() || j.got.canon != j.want.canon {
-					d.fail("parsefile-differs", fmt.Sprintf("concurrent reader %d of %d: ParseFile gives %s %s, ParseObject on its file's bytes gives %s %s", i, k,
+					d.fail(oracle, fmt.Sprintf("concurrent reader %d of %d: %s gives %s %s; the same bytes parsed alone afterwards give %s %s", i, k, hows[j.how],
 						j.got.class(), short(j.got.canon, 100), j.want.class(), short(j.want.canon, 100)))
 				}
 			}
